@@ -123,3 +123,56 @@ Definition case_views (uidfetch : list (Z * Z)) (exists_ status : Z) (searchall 
        (ascendingb uids && zlist_eqb (map fst uidfetch) (zrange 1 n) && (exists_ =? n) && (status =? n)
         && zlist_eqb searchall (zrange 1 n) && zpairs_eqb fetchall uidfetch)
        true None.
+
+(** ---- observing-session traces (bookkeeping of EXISTS / EXPUNGE) ---- *)
+From Raven Require Import Model.Session Spec.SessionView.
+
+Record ostep := { o_cmd : scmd; o_pre : list (Z * str); o_notes : list note; o_post : list Z }.
+
+Definition note_eqb (a b : note) : bool :=
+  match a, b with
+  | NExists x, NExists y => x =? y
+  | NExpunge x, NExpunge y => x =? y
+  | _, _ => false
+  end.
+Fixpoint notes_eqb (a b : list note) : bool :=
+  match a, b with
+  | [], [] => true
+  | x :: a', y :: b' => note_eqb x y && notes_eqb a' b'
+  | _, _ => false
+  end.
+
+Definition sfcode (f : option sfinding) : Z :=
+  match f with None => 0 | Some SF_check_swallows => 1 | Some SF_junk_move_count => 2 | Some SF_expunge_unannounced => 3 end.
+
+Record sacc := { a_last : Z; a_cnt : option Z; a_view : list Z; a_model : bool; a_count : bool; a_list : bool;
+                 a_cls : option sfinding; a_noop : bool }.
+
+Definition is_boundary (c : scmd) : bool := match c with CSelect | CNoop => true | _ => false end.
+
+Definition sess_obs_step (a : sacc) (o : ostep) : sacc :=
+  let rows := mk_mbox (o_pre o) in
+  let '(notes_m, rows_m, last') := sess_step (o_cmd o) rows (a_last a) in
+  let cnt' := match o_cmd o with CSelect => Some (Z.of_nat (length (o_post o))) | _ => cnt_replay (o_notes o) (a_cnt a) end in
+  let view' := match o_cmd o with CSelect => o_post o | _ => view_replay (o_post o) (o_notes o) (a_view a) end in
+  let b := is_boundary (o_cmd o) in
+  {| a_last := last'; a_cnt := cnt'; a_view := view';
+     a_model := a_model a && notes_eqb notes_m (o_notes o) && zlist_eqb (map m_uid rows_m) (o_post o);
+     a_count := a_count a && (negb b || opt_eqb Z.eqb cnt' (Some (Z.of_nat (length (o_post o)))));
+     a_list := a_list a && (negb b || zlist_eqb view' (o_post o));
+     a_cls := match a_cls a with Some f => Some f | None => classify_step (o_cmd o) rows (a_last a) end;
+     a_noop := a_noop a
+               || match o_cmd o with
+                  | CNoop => negb (zlist_eqb (view_replay (o_post o) notes_m (a_view a)) (o_post o))
+                  | _ => false
+                  end |}.
+
+(** code: bit0 model agrees, bit1 count level holds at every boundary, bit2 list
+    level holds at every boundary, bits 3-4 bookkeeping class of the trace,
+    bit5 the notices the MODEL predicts for some NOOP of the trace (derived from the
+    count difference only) do not turn the client's list into the server's: class noop_notices *)
+Definition case_session (steps : list ostep) : Z :=
+  let a := fold_left sess_obs_step steps
+             {| a_last := 0; a_cnt := None; a_view := []; a_model := true; a_count := true; a_list := true;
+                a_cls := None; a_noop := false |} in
+  b2z (a_model a) + 2 * b2z (a_count a) + 4 * b2z (a_list a) + 8 * sfcode (a_cls a) + 32 * b2z (a_noop a).
